@@ -68,6 +68,22 @@ func (x *c17NumGen) randFloat() float64 {
 	}
 }
 
+var c17IntEdges = []string{"9007199254740992", "9007199254740993", "9007199254740994", "9223372036854775807", "9223372036854775808",
+	"9223372036854775809", "9223372036854776832", "9223372036854776833", "9223372036854774784", "18446744073709551615", "18446744073709551616",
+	"9223372036854777856", "9223372036854776831", "123456789012345678901234567890", "1" + strings.Repeat("0", 308), "1" + strings.Repeat("0", 309),
+	"17976931348623157" + strings.Repeat("0", 292), "17976931348623158" + strings.Repeat("0", 292), "17976931348623159" + strings.Repeat("0", 292)}
+
+var c17FloatEdges = []string{"9007199254740993.0", "9223372036854775808.0", "9223372036854775807.0", "9223372036854775808.5", "9223372036854776832.0",
+	"9223372036854776833.0", "9.223372036854775807e18", "9.223372036854775808e18", "1.0000000000000001", "1.00000000000000011102230246251565404236316680908203125",
+	"1.000000000000000111022302462515654042363166809082031250000001", "0.99999999999999994448884876874217297882", "0.999999999999999944488848768742172978818416595458984375",
+	"4503599627370496.5", "4503599627370497.5", "4503599627370495.5", "2251799813685248.25", "1e22", "1e23", "8.41e21", "2.5e-324", "2.4703282292062327e-324", "2.4703282292062328e-324",
+	"4.9e-324", "1e-400", "1e-1000000", "0.0", "0e999999", "1e400", "1e999999", "1.7976931348623157e308", "1.7976931348623158e308", "1.797693134862315807e308", "1.797693134862315808e308",
+	"179769313486231580793728971405303415079934132710037826936173778980444968292764750946649017977587207096330286416692887910946555547851940402630657488671505820681908902000708383676273854845817711531764475730270069855571366959622842914819860834936475292719074168444365510704342711559699508093042880177904174497791.9999999999999999999999999999999999999999"}
+
+// the witnesses of Props/C17 (rounding_decides_witnesses, float_range_witnesses, exact_model_differs_on_rounding)
+var c17NumWitnesses = []string{"9007199254740993.0", "1.0000000000000001", "1e-400", "-9223372036854775809", "9223372036854775808",
+	"1.5", "1.0", "1e3", "7", "1e309", "1.7976931348623157e308", "1.7976931348623159e308", "4.9e-324", "9223372036854775807"}
+
 type c17NumGen struct{ c *Ctx }
 
 func (x *c17NumGen) numeral() (text, how string) {
@@ -106,18 +122,10 @@ func (x *c17NumGen) numeral() (text, how string) {
 		dot := 1 + rng.Intn(n-1)
 		return fmt.Sprintf("%s%s.%se%d", sign, m[:dot], m[dot:], rng.Intn(80)-40), "long-mantissa"
 	case 5: // integer-syntax edges
-		edges := []string{"9007199254740992", "9007199254740993", "9007199254740994", "9223372036854775807", "9223372036854775808",
-			"9223372036854775809", "9223372036854776832", "9223372036854776833", "9223372036854774784", "18446744073709551615", "18446744073709551616",
-			"9223372036854777856", "9223372036854776831", "123456789012345678901234567890", "1" + strings.Repeat("0", 308), "1" + strings.Repeat("0", 309),
-			"17976931348623157" + strings.Repeat("0", 292), "17976931348623158" + strings.Repeat("0", 292), "17976931348623159" + strings.Repeat("0", 292)}
+		edges := c17IntEdges
 		return sign + edges[rng.Intn(len(edges))], "int-edge"
 	case 6: // the same edges written as floats
-		edges := []string{"9007199254740993.0", "9223372036854775808.0", "9223372036854775807.0", "9223372036854775808.5", "9223372036854776832.0",
-			"9223372036854776833.0", "9.223372036854775807e18", "9.223372036854775808e18", "1.0000000000000001", "1.00000000000000011102230246251565404236316680908203125",
-			"1.000000000000000111022302462515654042363166809082031250000001", "0.99999999999999994448884876874217297882", "0.999999999999999944488848768742172978818416595458984375",
-			"4503599627370496.5", "4503599627370497.5", "4503599627370495.5", "2251799813685248.25", "1e22", "1e23", "8.41e21", "2.5e-324", "2.4703282292062327e-324", "2.4703282292062328e-324",
-			"4.9e-324", "1e-400", "1e-1000000", "0.0", "0e999999", "1e400", "1e999999", "1.7976931348623157e308", "1.7976931348623158e308", "1.797693134862315807e308", "1.797693134862315808e308",
-			"179769313486231580793728971405303415079934132710037826936173778980444968292764750946649017977587207096330286416692887910946555547851940402630657488671505820681908902000708383676273854845817711531764475730270069855571366959622842914819860834936475292719074168444365510704342711559699508093042880177904174497791.9999999999999999999999999999999999999999"}
+		edges := c17FloatEdges
 		return sign + edges[rng.Intn(len(edges))], "float-edge"
 	case 7: // integral floats
 		return fmt.Sprintf("%s%d.%s", sign, rng.Int63n(1<<40), strings.Repeat("0", 1+rng.Intn(3))), "integral-float"
@@ -160,8 +168,19 @@ func c17Numerals(c *Ctx, u *c17Universe, n int) {
 	var cases []*c17Case
 	var reqs [][]string
 	var texts []string
-	for i := 0; i < n; i++ {
-		text, how := g.numeral()
+	var fixed []string
+	fixed = append(fixed, c17NumWitnesses...)
+	for _, e := range append(append([]string{}, c17IntEdges...), c17FloatEdges...) {
+		fixed = append(fixed, e, "-"+e)
+	}
+	for i := 0; i < n+2*len(fixed); i++ {
+		var text, how string
+		if i < 2*len(fixed) {
+			// every fixed numeral at `int` and at `float`
+			text, how = fixed[i/2], "fixed-witness"
+		} else {
+			text, how = g.numeral()
+		}
 		v, err := c17ParseNumber(text)
 		if err != nil {
 			r.note("numeral generator: %q: %v", text, err)
@@ -172,6 +191,9 @@ func c17Numerals(c *Ctx, u *c17Universe, n int) {
 		}
 		r.hist("numeral:" + how)
 		t := []*c17Ty{tInt, tFloat, tInt, tArr}[i%4]
+		if i < 2*len(fixed) {
+			t = []*c17Ty{tInt, tFloat}[i%2]
+		}
 		txt := text
 		if t == tArr {
 			txt = "[" + text + ",1]"
